@@ -53,6 +53,7 @@ class SimThread:
             if not frame.f_trace_opcodes:
                 self.sched.yield_point(self, frame)
         elif event == "opcode":
+            self.sched.opcode_points += 1
             self.sched.yield_point(self, frame)
         elif event == "return":
             self.sched.on_return(self, frame, arg)
@@ -102,6 +103,7 @@ class Scheduler:
         self.new_codes = {}
         self.lock_spins = 0
         self.preempt_in_new = 0
+        self.opcode_points = 0
         # PCT: random priorities and d-1 priority change points
         self.d = d
         self.change_points = set()
@@ -352,6 +354,11 @@ def run(req, boot):
     CLASSES = (L.Dimension, L.Prefix, L.Unit, L.Logarithm, L.LogarithmicUnit)
     sizes_before = {c.__name__: len(c._known) for c in CLASSES}
     ids_before = {c.__name__: {id(v) for v in c._known.values()} for c in CLASSES}
+    if sched.opcode_in:
+        # CPython 3.12 only instruments for per-instruction events at a sys.settrace()
+        # call made after some frame has asked for them; the simulated threads each call
+        # sys.settrace() when they start, so ask here first
+        sys._getframe().f_trace_opcodes = True
     simlock.ACTIVE.sched = sched
     try:
         for i, prog in enumerate(program["threads"]):
@@ -485,7 +492,8 @@ def run(req, boot):
     sw = digest([canon(s) for s in sched.switches])
     count("C20.keys.checked", len(order))
     probes = {"context_switches": len(sched.switches), "preempted_inside___new__": sched.preempt_in_new,
-              "lock_blocked_yields": sched.lock_spins, "step_cap_hit": int(sched.capped)}
+              "lock_blocked_yields": sched.lock_spins, "step_cap_hit": int(sched.capped),
+              "instruction_level_yield_points": sched.opcode_points}
     return {
         "digest": digest(lines),
         "n_ops": sum(len(t.program) for t in sched.threads),
